@@ -218,7 +218,8 @@ def command(r, ncomp, depth, maxdepth=2):
 
 def sequence(r, ncomp, depth=0, n=None, maxdepth=2):
     if n is None:
-        n = r.choice([0, 1, 2, 3, 5, 8])
+        # element COUNTS also cross the CBOR header widths: 12 commands = 24 array items, 128 commands = 256 items
+        n = r.choice([0, 1, 2, 3, 5, 8]) if (depth > 0 or r.random() > 0.04) else r.choice([11, 12, 13, 127, 128])
     return [command(r, ncomp, depth, maxdepth) for _ in range(n)]
 
 
@@ -289,7 +290,7 @@ SEV = sorted(R.SEVERABLE_SEQ)
 
 def envelope(r, depth=0, maxdep=2, cwt=True, p_dep=0.3, sev_bias=None, uniq="", shared=None):
     """one envelope description; nested dependencies are inline dicts (unique names through `uniq`)"""
-    comps = [comp_id(r) for _ in range(r.randrange(0, 4))]
+    comps = [comp_id(r) for _ in range(r.randrange(0, 4) if r.random() > 0.02 else r.choice([23, 24, 25]))]
     n = len(comps)
     man = {"suit-manifest-version": 1 if r.random() < 0.8 else rint(r), "suit-manifest-sequence-number": rint(r)}
     common = {}
@@ -355,7 +356,8 @@ def envelope(r, depth=0, maxdep=2, cwt=True, p_dep=0.3, sev_bias=None, uniq="", 
         man.clear()
         man.update(head + rest)
     pl = {}
-    for i in range(r.choice([0, 0, 1, 2, 3])):
+    # the number of envelope members crosses the map header width at 24 (rarely: such envelopes are large)
+    for i in range(r.choice([0, 0, 1, 2, 3]) if r.random() > 0.015 else r.choice([21, 22, 23, 24, 30])):
         name = "#" + rstr(r, tricky=False)[:12] + uniq + str(i)
         # payload sizes also beyond the 2-byte length header (65536 -> 5-byte bstr head), rarely: they are expensive
         pl[name] = rhex(r, r.choice([65535, 65536, 70000])) if r.random() < 0.01 else rhex(r)
